@@ -265,4 +265,4 @@ void vf_harness(void) {
     functions=['decodeBase64 (group decoding)', 'base64_chars_inv'],
     planted=[('blk', r'\(k\[1\] << 12\)', '(k[1] << 11)')],
 )
-UNITS += [decodeBase64, b64_group]
+UNITS += [b64_group]   # decodeBase64 (loop contracts): not finishing yet, see below
